@@ -167,12 +167,12 @@ def body_product(c):
         F, grad, hess = product_derivatives(specs, x)
         a = sigma @ sigma.T
         want = float(b @ grad + 0.5 * np.sum(a * hess))
-        got = tg.generator_on_product(basis, tuple(tup), x.copy(), b.copy(), sigma.copy())
+        got = tg.generator_on_product(basis, tuple(tup), x, b, sigma)
         scale = 1.0 + abs(want) + np.linalg.norm(b) * np.linalg.norm(grad) + np.linalg.norm(a) * np.linalg.norm(hess)
         close(np.asarray(got, dtype=float), want, 1e-11, scale, 'generator_on_product', 'L(prod f) at %s for index tuple %s' % (x, tup))
         for i in range(d2):
             wr = float(grad @ sigma[:, i])
-            gr = tg.generator_on_product_reversible(basis, tuple(tup), i, x.copy(), sigma.copy())
+            gr = tg.generator_on_product_reversible(basis, tuple(tup), i, x, sigma)
             close(np.asarray(gr, dtype=float), wr, 1e-11, 1.0 + np.linalg.norm(grad) * np.linalg.norm(sigma), 'generator_on_product_reversible',
                   'grad(prod f) . sigma[:, %d] for index tuple %s' % (i, tup))
     return lab | {'product_rule'}
